@@ -10,6 +10,7 @@ import Micm.Model.FlatKernels
 import Micm.Model.History
 import Micm.Model.FlatKernels2
 import Micm.Model.FlatKernels3
+import Micm.Model.Errors
 namespace Micm.Driver
 open Micm
 
@@ -644,6 +645,37 @@ def normCase : P String := do
   let conv := beIsConverged floatOps small atol.toArray rtol E Yn
   pure s!"norm e={showF e} ef={showF ef} conv={if conv then 1 else 0}"
 
+def errcCase : P String := do
+  let which ← tok
+  let okOr := fun (r : Except Err String) => match r with | .ok s => s | .error e => errStr e
+  match which with
+  | "surface" => do
+    let nr ← nat
+    pure (okOr ((surfaceProcessCheck nr).map fun _ => s!"errc ok reactants={nr}"))
+  | "property" => do
+    let kind ← nat
+    let (ty, present) := match kind with
+      | 0 => (PropType.double, true) | 1 => (.double, false) | 2 => (.string, false) | 3 => (.bool, false)
+      | 4 => (.int, false) | _ => (.unsupported, true)
+    pure (okOr ((getPropertyCheck ty present).map fun _ => if kind == 0 then s!"errc ok {showF 0.05}" else "errc ok"))
+  | "ragged" => do
+    let _L ← nat; let rows ← nat
+    let lens ← nats rows
+    pure (okOr ((nestedCheck lens).map fun rc => s!"errc ok {rc.1}x{rc.2}"))
+  | "rowassign" => do
+    let _L ← nat; let cols ← nat; let len ← nat
+    pure (okOr ((rowAssignCheck cols len).map fun _ => "errc ok"))
+  | "missingblock" => do
+    let blocks ← nat
+    -- pattern {(0,0),(1,1)}, one block: VectorIndex(1,1) = 1
+    pure (okOr ((twoArgIndexCheck blocks).map fun _ => "errc ok 1"))
+  | "builderelem" => do
+    let n ← nat; let x ← nat; let y ← nat
+    pure (match builderWithElement n [] x y with
+      | .ok s => s!"errc ok {s.length}"
+      | .error e => errStr e.toErr)
+  | _ => pure "bad-op"
+
 def runLine2 (line : String) : String :=
   let toks := (line.trimAscii.toString.splitOn " ").filter (· != "")
   match toks with
@@ -660,6 +692,7 @@ def runLine2 (line : String) : String :=
     | "luflat" => (luFlatCase.run rest).1
     | "lumix" => (luMixCase.run rest).1
     | "alphaflat" => (alphaFlatCase.run rest).1
+    | "errc" => (errcCase.run rest).1
     | _ => runLine line
 
 end Micm.Driver
